@@ -28,6 +28,7 @@ func checkC02(c *Ctx, r *Report) {
 	r.rule("C02.NATIVE", "the Go list carriers the library walks itself (frozen table: []interface{} and slices of string, int, int64, bool, float32, float64, time.Time) are excluded by a failed type test (or a failed reflect Kind()==Slice test) on every path to AnyResolver.Len/Nth, so the same data gives the same list whichever strategy backs the graph")
 	nativeListRule(c, r, a, "C02.NATIVE", "a root resolver that understands only its own containers reports length 0, so the root-resolver strategy returns an empty list where the interface and reflection strategies return the elements")
 	c02Pipe(c, r, a)
+	c02Promoted(c, r)
 	cacheVerdictRule(c, r, a, "C02.CACHE", "the reflection strategy then answers with an error (and null) for a node whose GraphQL type was first seen with another Go type, where the interface and root-resolver strategies answer with the data")
 }
 
@@ -436,4 +437,105 @@ func (c *Ctx) nativeListSetMemo() ([]types.Type, bool, ssa.CallInstruction) {
 		c.natMemo = &natInfo{s, k, site}
 	}
 	return c.natMemo.set, c.natMemo.anyKind, c.natMemo.site
+}
+
+// c02Promoted: the reflection strategy binds a GraphQL field to a Go struct field found by reflect's own
+// name resolution (FieldByName / FieldByNameFunc), which sees fields promoted from embedded structs as Go
+// itself does. A binding taken from an enumeration with Type.Field(i) sees only the struct's own fields
+// unless it descends into anonymous members.
+func c02Promoted(c *Ctx, r *Report) {
+	r.rule("C02.PROMOTED", "every value stored into FieldDef.goField from a reflect.StructField comes from FieldByName/FieldByNameFunc, or from Type.Field(i) in a function that also reads StructField.Anonymous")
+	n := 0
+	for _, fn := range c.allFns {
+		k := 0
+		for _, b := range fn.Blocks {
+			for _, in := range b.Instrs {
+				st, ok := in.(*ssa.Store)
+				if !ok {
+					continue
+				}
+				fa, ok := st.Addr.(*ssa.FieldAddr)
+				if !ok {
+					continue
+				}
+				if o, f := fieldOwner(fa.X.Type(), fa.Field); o != "FieldDef" || f != "goField" {
+					continue
+				}
+				// the stored value: X.Name of a reflect.StructField X
+				var sf ssa.Value
+				switch t := st.Val.(type) {
+				case *ssa.Field:
+					sf = t.X
+				case *ssa.UnOp:
+					if fa2, ok := t.X.(*ssa.FieldAddr); ok {
+						sf = fa2.X
+					}
+				}
+				if sf == nil {
+					continue
+				}
+				isSF := func(t types.Type) bool {
+					if p, ok := t.(*types.Pointer); ok {
+						t = p.Elem()
+					}
+					nm, ok := t.(*types.Named)
+					return ok && nm.Obj().Pkg() != nil && nm.Obj().Pkg().Path() == "reflect" && nm.Obj().Name() == "StructField"
+				}
+				if !isSF(sf.Type()) {
+					continue
+				}
+				n++
+				k++
+				// origin of the StructField
+				origin := ""
+				var walk func(v ssa.Value, d int)
+				walk = func(v ssa.Value, d int) {
+					if d > 6 {
+						return
+					}
+					switch t := v.(type) {
+					case *ssa.Extract:
+						walk(t.Tuple, d+1)
+					case *ssa.Call:
+						if f := calleeObj(t); f != nil {
+							origin = f.Name()
+						}
+					case *ssa.UnOp:
+						walk(t.X, d+1)
+					case *ssa.Alloc:
+						for _, ref := range *t.Referrers() {
+							if s2, ok := ref.(*ssa.Store); ok && s2.Addr == ssa.Value(t) {
+								walk(s2.Val, d+1)
+							}
+						}
+					case *ssa.Phi:
+						for _, e := range t.Edges {
+							walk(e, d+1)
+						}
+					}
+				}
+				walk(sf, 0)
+				ok2 := origin == "FieldByName" || origin == "FieldByNameFunc"
+				if origin == "Field" {
+					for _, b2 := range fn.Blocks {
+						for _, in2 := range b2.Instrs {
+							switch t := in2.(type) {
+							case *ssa.Field:
+								if isSF(t.X.Type()) && fieldName(t.X.Type(), t.Field) == "Anonymous" {
+									ok2 = true
+								}
+							case *ssa.FieldAddr:
+								if isSF(t.X.Type()) && fieldName(t.X.Type(), t.Field) == "Anonymous" {
+									ok2 = true
+								}
+							}
+						}
+					}
+				}
+				r.check("C02.PROMOTED", fmt.Sprintf("%s: Go field binding #%d is found the way Go resolves selectors", fnName(fn), k), st.Pos(), ok2,
+					fmt.Sprintf("the struct field comes from reflect %s() without descending into anonymous members: a field promoted from an embedded struct is not found, so the reflection strategy answers null plus an error where the other strategies return the value", origin))
+			}
+		}
+	}
+	r.floor("C02.PROMOTED", "Go field bindings taken from reflect.StructField", n, 1)
 }
